@@ -2,6 +2,7 @@
 from __future__ import annotations
 
 import ast
+import itertools
 
 from .. import dl, lit
 from ..core import AnalysisError
@@ -135,36 +136,46 @@ def _same_device_trace(text_a, text_b) -> bool:
             nxt = int(val) if val.strip() else nxt
             _LCD_FNS.setdefault("@enum", {})[nm.strip()] = nxt
             nxt += 1
-    traces = []
-    for text in (text_a, text_b):
-        try:
-            fns = l2.functions_of(text, ["setup"])
-            g = l2.global_decls(text)
-        except Exception:
-            return False
-        env, types = dict(_LCD_FNS.get("@enum", {})), {}
-        for n_, (ty, init) in g.items():
-            types[n_] = ty
-            if ty.replace("const ", "") not in ("int", "long", "unsigned long", "unsigned int", "float", "double", "bool", "String", "uint8_t", "byte", "size_t"):
-                env[n_] = 0       # a device object (LiquidCrystal, Servo): only its method calls matter, they are recorded
-                continue
-            txt = (init or "0").strip()
-            while True:
-                mm = _re.fullmatch(r"static_cast<[\w\s]+>\((.*)\)", txt) or _re.fullmatch(r"\((.*)\)", txt)
-                if not mm:
-                    break
-                txt = mm.group(1).strip()
+    # the statement may run in any device state, not only the one the declarations leave behind: the comparison is repeated
+    # with the emitter's own state variables (non-const `__...` globals) perturbed (small integers := 40, booleans flipped)
+    for perturb in (None, "int", "bool"):
+        traces = []
+        for text in (text_a, text_b):
             try:
-                env[n_] = txt.strip('"') if ty == "String" else 1 if txt == "true" else 0 if txt == "false" else float(txt.rstrip("fUL")) if ("." in txt or "e" in txt.lower()) else int(txt.rstrip("UL"), 0)
+                fns = l2.functions_of(text, ["setup"])
+                g = l2.global_decls(text)
             except Exception:
-                return False        # a global whose initial value the evaluator cannot read: equivalence is not shown
-        k = ckern.CallKern({k_: v_ for k_, v_ in _LCD_FNS.items() if k_ != "@enum"}, env=env, types=types, consts=_LCD_FNS.get("@enum", {}))
-        try:
-            k.block(fns["setup"][0]["body"])
-        except (ckern.KernUnsupported, ckern._Return, ckern._Break, ckern._Continue):
+                return False
+            env, types = dict(_LCD_FNS.get("@enum", {})), {}
+            for n_, (ty, init) in g.items():
+                types[n_] = ty
+                if ty.replace("const ", "") not in ("int", "long", "unsigned long", "unsigned int", "float", "double", "bool", "String", "uint8_t", "byte", "size_t"):
+                    env[n_] = 0       # a device object (LiquidCrystal, Servo): only its method calls matter, they are recorded
+                    continue
+                txt = (init or "0").strip()
+                while True:
+                    mm = _re.fullmatch(r"static_cast<[\w\s]+>\((.*)\)", txt) or _re.fullmatch(r"\((.*)\)", txt)
+                    if not mm:
+                        break
+                    txt = mm.group(1).strip()
+                try:
+                    env[n_] = txt.strip('"') if ty == "String" else 1 if txt == "true" else 0 if txt == "false" else float(txt.rstrip("fUL")) if ("." in txt or "e" in txt.lower()) else int(txt.rstrip("UL"), 0)
+                except Exception:
+                    return False        # a global whose initial value the evaluator cannot read: equivalence is not shown
+                if perturb and n_.startswith("__") and not ty.startswith("const"):
+                    if perturb == "int" and ty in ("int", "long", "uint8_t", "byte") and isinstance(env[n_], int) and 0 <= env[n_] <= 255:
+                        env[n_] = 40 if env[n_] != 40 else 41
+                    elif perturb == "bool" and ty == "bool":
+                        env[n_] = 0 if env[n_] else 1
+            k = ckern.CallKern({k_: v_ for k_, v_ in _LCD_FNS.items() if k_ != "@enum"}, env=env, types=types, consts=_LCD_FNS.get("@enum", {}))
+            try:
+                k.block(fns["setup"][0]["body"])
+            except (ckern.KernUnsupported, ckern._Return, ckern._Break, ckern._Continue):
+                return False
+            traces.append(k.events)
+        if traces[0] != traces[1]:
             return False
-        traces.append(k.events)
-    return traces[0] == traces[1]
+    return True
 
 
 def rule_literal_uniform(cx, rid):
@@ -182,14 +193,15 @@ def rule_literal_uniform(cx, rid):
         base = next((kw for kw, _n in pe.variants(cname, limit=1)), None)
         if base is None:
             continue
-        pre = [l2.lcd_decl("parallel", True)] if dev == "LCD" else [l2.decl_node(dev)] if dev else []
-        for fname, ann, _d in fields[cname]:
+        pres = [("", [l2.lcd_decl("parallel", True)]), ("[i2c]", [l2.lcd_decl("i2c")]), ("[parallel, no backlight pin]", [l2.lcd_decl("parallel", False)])] if dev == "LCD" else [("", [l2.decl_node(dev)] if dev else [])]
+        for (ptag, pre), (fname, ann, _d) in itertools.product(pres, fields[cname]):
             parts = ann.replace("typing.", "").replace("Optional[", "").replace("Union[", "").replace("]", "").split(", ")
-            if fname == "name" or "int" not in parts or "str" not in parts:
+            if fname == "name" or "str" not in parts or not ({"int", "bool"} & set(parts)):
                 continue
             hole = f"H_{fname}"
+            lits = (0, 7) if "int" in parts else (True, False)
 
-            def text_for(v, _c=cname, _f=fname):
+            def text_for(v, _c=cname, _f=fname, pre=pre):
                 kw = dict(base)
                 kw[_f] = v
                 try:
@@ -198,12 +210,12 @@ def rule_literal_uniform(cx, rid):
                     return None
                 return None if res.raised else res.text
             th = text_for(hole)
-            for v in (0, 7):
+            for v in lits:
                 tv = text_for(v)
                 if tv is None or th is None:
                     r.ok(f"{cname}.{fname}={v}: rejected")
                     continue
-                want = th.replace(hole, str(v))
+                want = th.replace(hole, str(v).lower() if isinstance(v, bool) else str(v))
                 if tv == want:
                     r.ok(None)
                 elif _same_device_trace(tv, want):
@@ -211,7 +223,56 @@ def rule_literal_uniform(cx, rid):
                 else:
                     a_, b_ = tv.split("\n"), want.split("\n")
                     k = next((i for i, (p_, q_) in enumerate(zip(a_, b_)) if p_ != q_), min(len(a_), len(b_)))
-                    r.fail(f"{cname}.{fname}/literal={v}-same-as-expression", (em, em.func("_emit_block")), f"{cname}({fname}={v}) emits `{(a_[k] if k < len(a_) else '<end>').strip()}` where the run-time form with {v} substituted reads `{(b_[k] if k < len(b_) else '<end>').strip()}`: the literal is clamped/dropped/re-interpreted at transpile time in a way the run-time path is not")
+                    r.fail(f"{cname}.{fname}{ptag}/literal={v}-same-as-expression", (em, em.func("_emit_block")), f"{cname}({fname}={v}){ptag} emits `{(a_[k] if k < len(a_) else '<end>').strip()}` where the run-time form with {v} substituted reads `{(b_[k] if k < len(b_) else '<end>').strip()}`: the literal is clamped/dropped/re-interpreted at transpile time in a way the run-time path is not")
+    return r
+
+
+def rule_resolver_values(cx, rid):
+    """the argument resolvers of the statement parser (closures of _parse_simple_lines) fold a name-free argument to exactly
+    the value the device computes when the same number arrives at run time in a parameter of that kind: an integer parameter
+    truncates toward zero (C++ float->int conversion; the host classes call int()), a float parameter keeps the value, a
+    flag is its truth value, an omitted argument is the default, and an expression with a name is left to run time"""
+    pm = mod(PARSER)
+    clos = {q.split(".")[-1]: f for q, f in pm.funcs.items() if q.startswith("_parse_simple_lines.") and q.count(".") == 1}
+    r = cx.rule(rid, "folded literal arguments: _resolve_numeric_arg/_resolve_optional_numeric_arg return int(v) (truncation toward zero, as the C++ conversion of a run-time value and the host's int()), _resolve_float_arg float(v), _resolve_bool_arg bool(v); omitted -> default; an expression with a name -> run-time text", floor=80, exhaustive=True)
+
+    def call(name, *args):
+        it = dl.Interp(pm, opaque={"ast.parse": ast.parse, "ast.iter_child_nodes": lambda n_: list(ast.iter_child_nodes(n_)), "ast.walk": lambda n_: list(ast.walk(n_)), "re.fullmatch": __import__("re").fullmatch, "re.sub": __import__("re").sub})
+        env = dl.Env(None)
+        for k, f in clos.items():
+            dict.__setitem__(env, k, dl.Closure(f, env))
+        dict.__setitem__(env, "vars", {})
+        dict.__setitem__(env, "ctx", {})
+        try:
+            return dl.Outcome("return", it._call(clos[name], list(args), {}, env))
+        except dl.Raised as ex_:
+            return dl.Outcome("raise", ex_.exc_type)
+        except dl.Unsupported as ex_:
+            raise AnalysisError(f"{name} left the evaluable subset: {ex_}")
+
+    grid = ["0", "7", "-3", "255", "127.6", "0.9", "-0.9", "0.5", "-2.5", "2.5", "255 * 0.5", "1000 / 3", "True", "False", "1e2", "0.0", "3 // 2", "-7 / 2"]
+    kinds = (("_resolve_numeric_arg", lambda v: (1 if v else 0) if isinstance(v, bool) else int(v), (99,)),
+             ("_resolve_optional_numeric_arg", lambda v: (1 if v else 0) if isinstance(v, bool) else int(v), ()),
+             ("_resolve_float_arg", lambda v: float(v), (99.5,)),
+             ("_resolve_bool_arg", lambda v: bool(v), (True,)))
+    for name, conv, dflt in kinds:
+        if name not in clos:
+            raise AnalysisError(f"{name} vanished")
+        for src in grid:
+            v = eval(src, {"__builtins__": {}})        # a name-free arithmetic literal of the checker's own grid
+            want = conv(v)
+            out = call(name, src, *dflt)
+            ok = out.kind == "return" and type(out.value) is type(want) and out.value == want
+            r.check(ok, f"{name}/folds-like-run-time-conversion", (pm, clos[name]), f"{name}({src!r}) -> {out!r}; the same value arriving at run time is converted to {want!r} (the host class computes the same): a literal and a variable holding it drive the device differently", sample=f"{name}({src}) = {want!r}")
+        for blank in (None, "", "  "):
+            if not dflt and blank is not None and name == "_resolve_optional_numeric_arg":
+                want_d = None
+            else:
+                want_d = dflt[0] if dflt else None
+            out = call(name, blank, *dflt)
+            r.check(out.kind == "return" and out.value == want_d, f"{name}/omitted->default", (pm, clos[name]), f"{name}({blank!r}) -> {out!r}, expected the default {want_d!r}")
+        out = call(name, "x + 1", *dflt)
+        r.check(out.kind == "return" and isinstance(out.value, str) and "x" in out.value, f"{name}/named-expression-left-to-run-time", (pm, clos[name]), f"{name}('x + 1') -> {out!r}")
     return r
 
 
@@ -520,6 +581,7 @@ def run(cx):
     from . import c08
     c08.rule_compositional(cx, "C03-CONTEXT-FREE")
     rule_literal_uniform(cx, "C03-LITERAL-UNIFORM")
+    rule_resolver_values(cx, "C03-RESOLVE")
 
     # ---- C03-PER-NODE ------------------------------------------------------------------------
     from .. import l2, pe
